@@ -360,10 +360,12 @@ void ExecImpl::op_destroy_watched(const Op& op) {
   nontriv("C13"); nontriv("C14");
   if (shadow) return;
   Obs o; obs_stack.push_back(&o);
-  delete rwatched[static_cast<size_t>(wid)];
+  const bool uw = (op.a[3] & 1) != 0;
+  if (uw) ++st.f_unwinding_death;
+  run_during_unwinding(uw, [&]() { delete rwatched[static_cast<size_t>(wid)]; });
   rwatched[static_cast<size_t>(wid)] = nullptr;
   obs_stack.pop_back();
-  check_reports(o, want, true, "destruction of a watched object", "C13,C15,C05");
+  check_reports(o, want, true, uw ? "destruction of a watched object (by stack unwinding)" : "destruction of a watched object", "C13,C15,C05");
   check_no_ok(o, "destroy_watched");
 }
 
